@@ -18,7 +18,7 @@ import (
 
 // TokOp is one operation of the token state machine.
 type TokOp struct {
-	Kind string `json:"kind"` // create | revoke | http | ws | restart
+	Kind string `json:"kind"` // create | revoke | http | ws | restart | rotate
 	Tok  int    `json:"tok"`  // >=0 index into issued tokens (mod len); -1 unknown; -2 admin; -3 the empty token
 	// Mut (revoke only): 0 = the token itself; otherwise a never-issued look-alike derived from it: 1 letter case swapped,
 	// 2 first 8 characters + "%", 3 "%", 4 underscores of the same length, 5 one character replaced by "_", 6 "%" + last 8
@@ -68,6 +68,8 @@ func runC10(p *C10Plan) (*stats.Case, error) {
 	}
 	stack.RemoveDB(filepath.Join(c10Dir, "bhs.db"))
 	s, err := stack.New(stack.Options{Dir: c10Dir, UseAuth: true, AdminToken: c10Admin, Websocket: true})
+	admin := c10Admin // the configured admin token (a "rotate" step restarts the service with another one)
+	var formerAdmins []string
 	if err != nil {
 		return nil, fmt.Errorf("infra: %w", err)
 	}
@@ -81,7 +83,7 @@ func runC10(p *C10Plan) (*stats.Case, error) {
 	pick := func(i int) string {
 		switch {
 		case i == -2:
-			return c10Admin
+			return admin
 		case i == -3:
 			return "" // no token at all (websocket connect without a token, "Bearer " on HTTP)
 		case i < 0 || len(issued) == 0:
@@ -99,7 +101,7 @@ func runC10(p *C10Plan) (*stats.Case, error) {
 			return fmt.Errorf("%s: panic %v", where, pan)
 		}
 		switch {
-		case tok == c10Admin:
+		case tok == admin:
 			if resp.Code != 200 {
 				return fmt.Errorf("%s: admin token got %d on %s: %s", where, resp.Code, path, resp.Body)
 			}
@@ -133,7 +135,7 @@ func runC10(p *C10Plan) (*stats.Case, error) {
 	}
 	checkWS := func(tok string, where string) (bool, error) {
 		want := "rejected"
-		if tok == c10Admin || live[tok] {
+		if tok == admin || live[tok] {
 			want = "ok"
 		}
 		got := wsConnect(srv.URL, tok)
@@ -159,7 +161,7 @@ func runC10(p *C10Plan) (*stats.Case, error) {
 		where := fmt.Sprintf("op %d %+v", i, op)
 		switch op.Kind {
 		case "create":
-			resp, _ := s.Do("POST", "/api/v1/access", auth(c10Admin), nil)
+			resp, _ := s.Do("POST", "/api/v1/access", auth(admin), nil)
 			var tr struct {
 				Token   string `json:"token"`
 				IsAdmin bool   `json:"isAdmin"`
@@ -167,7 +169,7 @@ func runC10(p *C10Plan) (*stats.Case, error) {
 			if resp.Code != 200 || json.Unmarshal(resp.Body, &tr) != nil || tr.Token == "" {
 				return nil, fmt.Errorf("%s: token creation failed: %d %s", where, resp.Code, resp.Body)
 			}
-			if tr.IsAdmin || tr.Token == c10Admin {
+			if tr.IsAdmin || tr.Token == admin {
 				return nil, fmt.Errorf("%s: issued token is admin", where)
 			}
 			for _, o := range issued {
@@ -186,7 +188,7 @@ func runC10(p *C10Plan) (*stats.Case, error) {
 			tok := pick(op.Tok)
 			if op.Mut != 0 {
 				tok = lookAlike(tok, op.Mut)
-				if live[tok] || tok == c10Admin {
+				if live[tok] || tok == admin {
 					break // the look-alike happens to be a real token: nothing to learn
 				}
 				lookAlikes++
@@ -197,7 +199,7 @@ func runC10(p *C10Plan) (*stats.Case, error) {
 					return nil, fmt.Errorf("%s: non-admin token revoked a token (%d)", where, r2.Code)
 				}
 			}
-			resp, pan := s.Do("DELETE", "/api/v1/access/"+url.PathEscape(tok), auth(c10Admin), nil)
+			resp, pan := s.Do("DELETE", "/api/v1/access/"+url.PathEscape(tok), auth(admin), nil)
 			if pan != nil || resp.Code >= 500 {
 				return nil, fmt.Errorf("%s: revoke answered %d %s (panic %v)", where, resp.Code, resp.Body, pan)
 			}
@@ -246,6 +248,18 @@ func runC10(p *C10Plan) (*stats.Case, error) {
 					sawCRA = true
 				}
 			}
+		case "rotate":
+			// the operator configures another admin token and restarts: the former one is neither the configured admin token
+			// nor a token that was ever issued
+			formerAdmins = append(formerAdmins, admin)
+			admin = fmt.Sprintf("c10-admin-rotated-%d-%d", len(formerAdmins), i)
+			s.Opts.AdminToken = admin
+			srv.Close()
+			if err := s.Reopen(); err != nil {
+				return nil, fmt.Errorf("%s: restart failed: %v", where, err)
+			}
+			srv = httptest.NewServer(s.Engine)
+			restarts++
 		case "restart":
 			srv.Close()
 			if err := s.Reopen(); err != nil {
@@ -269,12 +283,17 @@ func runC10(p *C10Plan) (*stats.Case, error) {
 				}
 			}
 		}
-		if err := checkHTTP(c10Admin, i, where+" / invariant"); err != nil {
+		if err := checkHTTP(admin, i, where+" / invariant"); err != nil {
 			return nil, err
+		}
+		for _, fa := range formerAdmins {
+			if err := checkHTTP(fa, i, where+" / invariant (former admin token)"); err != nil {
+				return nil, err
+			}
 		}
 	}
 	// final: websocket verdict of every token and the admin
-	for _, tok := range append(append([]string{}, issued...), c10Admin, "unknowntoken00000000000000000000") {
+	for _, tok := range append(append(append([]string{}, issued...), formerAdmins...), admin, "unknowntoken00000000000000000000") {
 		done, err := checkWS(tok, "final")
 		if err != nil {
 			return nil, err
@@ -284,7 +303,7 @@ func runC10(p *C10Plan) (*stats.Case, error) {
 		}
 	}
 	cl := map[string]int64{"revocations_of_look_alikes": int64(lookAlikes), "look_alike_credentials_presented": int64(lookAlikeCreds), "sequences": 1, "ops": int64(len(p.Ops)), "tokens_issued": int64(len(issued)), "ws_checks": int64(wsChecks), "restarts": int64(restarts),
-		"with_create_revoke_auth": b2i(sawCRA), "with_restart_between": b2i(restartBetween), "sparse_presentation": b2i(p.Sparse)}
+		"with_create_revoke_auth": b2i(sawCRA), "with_restart_between": b2i(restartBetween), "sparse_presentation": b2i(p.Sparse), "admin_token_rotations": int64(len(formerAdmins))}
 	return &stats.Case{Sig: stats.Sig(fmt.Sprint(p.Ops)), Nontrivial: sawCRA && restartBetween, Classes: cl, Sample: p}, nil
 }
 
@@ -338,7 +357,7 @@ var propC10 = Prop[*C10Plan]{
 		n := rapid.IntRange(5, quickThorough(30, 60)).Draw(t, "nops")
 		p := &C10Plan{Sparse: rapid.Bool().Draw(t, "sparse")}
 		for i := 0; i < n; i++ {
-			op := TokOp{Kind: rapid.SampledFrom([]string{"create", "create", "create", "revoke", "revoke", "revoke", "http", "http", "http", "ws", "restart", "restart"}).Draw(t, "kind")}
+			op := TokOp{Kind: rapid.SampledFrom([]string{"create", "create", "create", "revoke", "revoke", "revoke", "http", "http", "http", "ws", "restart", "restart", "rotate"}).Draw(t, "kind")}
 			switch k := rapid.IntRange(0, 9).Draw(t, "tk"); {
 			case k == 0:
 				op.Tok = -1
